@@ -14,8 +14,6 @@ Import ListNotations.
 From Omega Require Import L4.Arena.
 From OmegaGen Require Import FixpointGen Gr1Gen.
 
-Fixpoint enumerate {A} (i : nat) (l : list A) : list (nat * A) :=
-  match l with [] => [] | a :: r => (i, a) :: enumerate (Nat.succ i) r end.
 
 (* base-arena BDD read in the extended arena (memory ignored).  Not
    tabulated: the operations that consume a lifted BDD tabulate their results,
@@ -68,14 +66,14 @@ Definition rho_2 (yij : list (list bdd)) : bdd :=
 Definition rho_3 (xijk : list (list (list bdd))) : bdd :=
   fold_left (fun rho_3 '(i, xjk) =>
     let count := count_eq i i in
-    let '(rho_3j, used) :=
-      fold_left (fun acc xk =>
-        fold_left (fun '(r, used) '(x, hold) =>
+    let '(used, rho_3j) :=
+      fold_left (fun '(used, r) xk =>
+        fold_left (fun '(used, r) '(x, hold) =>
           let xstar := ca x None in
           let stay := band x (bnot used) in
           let used := bor used x in
-          (bor r (band (band stay xstar) hold), used))
-          (combine xk holds) acc)
+          (used, bor r (band (band stay xstar) hold)))
+          (combine xk holds) (used, r))
         xjk (bfalse, bfalse) in
     bor rho_3 (band rho_3j count))
     (enumerate 0 xijk) bfalse.
@@ -85,9 +83,10 @@ Definition streett_action (z : bdd) (yij : list (list bdd))
   let u := bor (bor (rho_1 z) (rho_2 yij)) (rho_3 xijk) in
   let c_max := length goals - 1 in
   let u := band u (memo (fun v => Nat.leb (cnt v) c_max)) in
-  let u := if plus_one then u else
+  let u := if negb plus_one then
              let u := bor u (bnot E) in
-             if moore then forall_ [Envp] u else u in
+             if moore then forall_ [Envp] u else u
+           else u in
   u.
 
 Definition streett_init_count : bdd := memo (fun v => Nat.eqb (cnt v) 0).
@@ -116,8 +115,10 @@ Definition rgp (v : V) : nat := (vyp v mod M) mod G.
 Definition rhp (v : V) : nat := (vyp v mod M) / G.
 Definition mp (f : V -> bool) : bdd := memo f.
 
-Definition rabin_action (zk : list bdd) (yki : list (list bdd))
-    (xkijr : list (list (list (list bdd)))) : bdd :=
+(* the action, handed to a continuation (the code goes on under the two
+   destructuring lets; see TransducerBridge.v) *)
+Definition rabin_action_k {T : Type} (k : bdd -> T) (zk : list bdd)
+    (yki : list (list bdd)) (xkijr : list (list (list (list bdd)))) : T :=
   let n_holds := length holds in
   let n_goals := length goals in
   let none := n_holds in
@@ -174,10 +175,23 @@ Definition rabin_action (zk : list bdd) (yki : list (list bdd))
       (combine (combine zk yki) xkijr) (bfalse, bfalse, bfalse, bfalse) in
   let u := bor (bor (bor rho_1 rho_2) rho_3) rho_4 in
   let u := band u (mp (fun v => Nat.leb (rh v) n_holds && Nat.leb (rg v) (n_goals - 1))) in
-  let u := if plus_one then u else
+  let u := if negb plus_one then
              let u := bor u (bnot E) in
-             if moore then forall_ [Envp] u else u in
-  u.
+             if moore then forall_ [Envp] u else u
+           else u in
+  k u.
+
+Definition rabin_action : list bdd -> list (list bdd) ->
+    list (list (list (list bdd))) -> bdd := rabin_action_k (fun u => u).
+
+Lemma rabin_action_k_eq {T} (k : bdd -> T) zk yki xkijr :
+  rabin_action_k k zk yki xkijr = k (rabin_action zk yki xkijr).
+Proof.
+  unfold rabin_action, rabin_action_k. cbv zeta.
+  destruct (fold_left _ (tl zk) _) as [rho_1 b1].
+  destruct (fold_left _ (combine (combine zk yki) xkijr) _) as [[[r2 r3] r4] b2].
+  reflexivity.
+Qed.
 
 Definition rabin_init_count : bdd :=
   mp (fun v => Nat.eqb (rg v) 0 && Nat.eqb (rh v) (length holds)).
